@@ -304,6 +304,32 @@ def panic_message(body, bb):
     return msgs[0] if msgs else ""
 
 
+def _decoder_transfer_methods(ctx):
+    """Methods of core::utils::Decoder (other than advance_by) that cut a caller-given number of bytes off their own
+    buffer (`fn split_front(&mut self, len) { self.buf.split_to(len) }`): the length obligation is the caller's, every
+    call of such a method is a site of its own."""
+    cache = ctx.__dict__.get("_dec_transfer")
+    if cache is not None:
+        return cache
+    out = set()
+    for f in ctx.facts.fns:
+        if f["kind"] != "fn" or strip_generics(f.get("impl_self") or "") != "core::utils::Decoder" or f["arg_count"] < 2 or f["name"] == "advance_by":
+            continue
+        b = ctx.world.body(f["path"])
+        for i, t in b.calls():
+            nm = callee_name(t) or ""
+            res = callee_resolved(t) or nm
+            if not (BYTES_PANIC.search(nm) or BYTES_PANIC.search(res)) or len(t["ops"]) < 2:
+                continue
+            recv_self = any(a[0] == "param" and a[1] == 1 for a in b.atoms(t["ops"][0]))
+            amt_param = t["ops"][1].get("k") != "const" and any(a[0] == "param" and a[1] >= 2 for a in b.atoms(t["ops"][1])) \
+                and not any(a[0] == "call" and not re.search(r"(From::from|Into::into)$", a[1]) for a in b.atoms(t["ops"][1]))
+            if recv_self and amt_param:
+                out.add(f["path"])
+    ctx.__dict__["_dec_transfer"] = out
+    return out
+
+
 def enumerate_sites(ctx, body):
     out = []
     for i in sorted(body.reach):
@@ -333,9 +359,13 @@ def enumerate_sites(ctx, body):
             extra = {}
             if strip_generics(body.path).endswith("Decoder::advance_by"):
                 extra = {"transfer": "Decoder::advance_by"}
+            elif body.path in _decoder_transfer_methods(ctx):
+                extra = {"transfer": short_ty(strip_generics(body.path))}
             out.append(Site(body, i, "bytes", "%s(%s)" % ((nm if BYTES_PANIC.search(nm) else res).replace("bytes::", "").replace("buf::", ""), ",".join(operand_text(body, o, 1) for o in t["ops"][:2])), t["ops"][0] if t["ops"] else None, t, extra))
         elif nm.endswith("core::utils::Decoder::advance_by"):
             out.append(Site(body, i, "bytes", "Decoder::advance_by(%s)" % ",".join(operand_text(body, o, 1) for o in t["ops"][:2]), t["ops"][0], t))
+        elif res in _decoder_transfer_methods(ctx) and len(t["ops"]) >= 2:
+            out.append(Site(body, i, "bytes", "%s(%s)" % (short_ty(strip_generics(res)), ",".join(operand_text(body, o, 1) for o in t["ops"][:2])), t["ops"][0], t))
         elif INDEXING.search(nm):
             self_ty = (t["callee"].get("self_ty") or "")
             out.append(Site(body, i, "index", "%s[%s](%s)" % (short_ty(self_ty.split("<")[0]) or "?", short_ty(((t["callee"].get("args") or ["", "?"])[1:] or ["?"])[0]), ",".join(operand_text(body, o, 1) for o in t["ops"][:2])), t["ops"][0], t))
@@ -422,6 +452,10 @@ def _value_ids(body, op, depth=0):
             break
         pl = cur["pl"] if "pl" in cur else cur
         ids.add(_pk(pl))
+        try:
+            ids.add("canon:%s" % (body.canon(pl),))     # the same place reached through re-borrows (`&mut *self` of an inlined helper)
+        except Exception:
+            pass
         base = {"l": pl["l"], "p": []}
         if pl["p"] and all(p == "deref" for p in pl["p"]):
             ids.add(_pk(base))
@@ -1094,6 +1128,14 @@ def value_range(body, o, depth=0, seen=None):
     l = pl["l"]
     seen = seen if seen is not None else set()
     checked_part = len(proj) == 1 and isinstance(proj[0], dict) and proj[0].get("f") == 0
+    if len(proj) == 2 and isinstance(proj[0], dict) and proj[0].get("dc") == "Some" and isinstance(proj[1], dict) and proj[1].get("f") == 0:
+        # `Some(i)` of a position search: i < number of elements searched
+        ds_ = body.whole_defs(l)
+        if len(ds_) == 1 and ds_[0][0] == "call" and re.search(r"Iterator::r?position$", callee_name(ds_[0][2]) or ""):
+            n_ = _iter_len_bound(body, ds_[0][2]["ops"][0])
+            if n_ is not None and n_ >= 1:
+                return (0, n_ - 1)
+        return tr
     if proj and not checked_part:
         return tr
     if l <= body.fn["arg_count"] or _mut_borrowed(body, l) and not checked_part:
@@ -1136,6 +1178,44 @@ def value_range(body, o, depth=0, seen=None):
         if acc[1] > tr[1]:
             return tr       # may have wrapped
     return acc
+
+
+def _iter_len_bound(body, op, depth=0):
+    """Upper bound on the number of items an iterator operand can yield (take(n), a slice cut with a bounded range, an
+    array), or None."""
+    if depth > 12 or op is None or op.get("k") == "const":
+        return None
+    o = body.origin(op, through_calls=False)
+    if o[0] == "rv" and o[2]["rv"]["k"] == "ref":
+        return _iter_len_bound(body, {"k": "copy", "pl": o[2]["rv"]["pl"]}, depth + 1)
+    if o[0] == "place":
+        ty = _op_ty(body, {"k": "copy", "pl": o[1]})
+        return _array_len(ty)
+    if o[0] != "call":
+        return None
+    t = o[2]
+    nm = callee_name(t) or ""
+    if re.search(r"Iterator::take$", nm) and len(t["ops"]) == 2:
+        r = value_range(body, t["ops"][1])
+        inner = _iter_len_bound(body, t["ops"][0], depth + 1)
+        cands = [x for x in (r[1] if r else None, inner) if x is not None]
+        return min(cands) if cands else None
+    if re.search(r"(Iterator::(rev|map|enumerate|copied|cloned|by_ref|inspect|peekable|fuse|filter|skip|skip_while|take_while|step_by)|IntoIterator::into_iter|slice::<impl \[T\]>::iter(_mut)?|Deref::deref|AsRef::as_ref)$", nm) and t["ops"]:
+        return _iter_len_bound(body, t["ops"][0], depth + 1)
+    if re.search(r"Index(Mut)?::index(_mut)?$", nm) and len(t["ops"]) == 2:
+        ro = body.origin(t["ops"][1], through_calls=False)
+        if ro[0] == "agg":
+            rv = ro[2]["rv"]
+            kind = (rv.get("adt") or "").split("::")[-1]
+            rs = [value_range(body, x) for x in rv["ops"]]
+            if kind == "RangeToInclusive" and rs and rs[0]:
+                return rs[0][1] + 1
+            if kind == "RangeTo" and rs and rs[0]:
+                return rs[0][1]
+            if kind == "Range" and len(rs) == 2 and rs[0] and rs[1]:
+                return max(rs[1][1] - rs[0][0], 0)
+        return _iter_len_bound(body, t["ops"][0], depth + 1)
+    return None
 
 
 def _range_bin(op, a, b, checked):
@@ -1267,6 +1347,148 @@ def d_range(site):
 def _fmt_r(r):
     return str(r[0]) if r[0] == r[1] else "[%d, %s]" % (r[0], r[1] if r[1] < 2 ** 32 else "2^%d-1" % r[1].bit_length())
 
+
+
+def d_posrange(site):
+    """`slice[..=i]` / `slice[..i]` / `slice[i]` where i is the `Some` payload of `position(..)` over an iterator of the
+    same slice: position() returns an index smaller than the number of elements it looked at."""
+    if site.kind != "index" or site.term is None or len(site.term["ops"]) != 2:
+        return None
+    body = site.body
+    t = site.term
+    base = body.base_local(t["ops"][0])
+    o = body.origin(t["ops"][1], through_calls=False)
+    idx_ops = o[2]["rv"]["ops"] if o[0] == "agg" else [t["ops"][1]]
+    kind = (o[2]["rv"].get("adt") or "").split("::")[-1] if o[0] == "agg" else "index"
+    if kind not in ("RangeToInclusive", "RangeTo", "index") or len(idx_ops) != 1:
+        return None
+    io = body.origin(idx_ops[0], through_calls=False)
+    if io[0] != "place":
+        return None
+    pr = [p for p in io[1]["p"] if p != "deref"]
+    if not (len(pr) == 2 and isinstance(pr[0], dict) and pr[0].get("dc") == "Some"):
+        return None
+    ds = body.whole_defs(io[1]["l"])
+    if len(ds) != 1 or ds[0][0] != "call" or not re.search(r"Iterator::position$", callee_name(ds[0][2]) or ""):
+        return None
+    recv = ds[0][2]["ops"][0]
+    same = base is not None and (body.base_local(recv) == base or any(a[0] in ("local", "param") and a[1] == base for a in body.atoms(recv)))
+    adaptors = [a[1] for a in body.atoms(recv) if a[0] == "call" and re.search(r"Iterator::(rev|skip|step_by|chain|flat_map|filter|skip_while|cycle|zip)$", a[1])]
+    if same and not adaptors:
+        return "D-posrange: the index is the result of position() over the elements of the same slice, front to back (smaller than its length)"
+    return None
+
+
+def d_fold(site):
+    """Arithmetic checks inside the closure of `iter.fold(init, |acc, x| ..)` when the number of rounds is bounded (take(n),
+    a slice cut at a bounded index): the closure is interpreted abstractly round by round (acc from the previous round,
+    the item bounded by its type); discharged when no check can fail in any round."""
+    if site.kind != "assert":
+        return None
+    body = site.body
+    if body.fn["kind"] != "closure" or body.fn["arg_count"] != 3:
+        return None
+    ctx = _CTX[0]
+    if ctx is None:
+        return None
+    key = ("fold", body.path)
+    cache = ctx.__dict__.setdefault("_fold_cache", {})
+    if key not in cache:
+        cache[key] = None
+        parent = body.fn.get("parent")
+        pb = ctx.world.body(parent) if parent and ctx.facts.fn(parent) else None
+        if pb is not None:
+            for i, t in pb.calls(r"Iterator::fold$"):
+                if len(t["ops"]) != 3 or _fn_value(pb, t["ops"][2]) != body.path:
+                    continue
+                n = _iter_len_bound(pb, t["ops"][0])
+                init = value_range(pb, t["ops"][1])
+                if n is None or n > 16 or init is None:
+                    continue
+                import absint
+                acc = absint.iv(init[0], init[1])
+                item_ty = body.locals[3]["ty"]
+                it = _ty_range(item_ty.replace("&", "").replace("mut ", "").strip())
+                ok = it is not None
+                rounds = 0
+                for k in range(n):
+                    if not ok:
+                        break
+                    ex = absint.Explorer(body, max_bytes=0, max_states=2000, report_wrap=not ctx.facts.config.get("overflow_checks", True))
+                    cell = 10 ** 6
+                    args = {2: acc, cell: absint.iv(it[0], it[1])}
+                    args[3] = ("ref", {"l": cell, "p": []}) if "&" in item_ty else absint.iv(it[0], it[1])
+                    ex.run(args)
+                    rets = [r[1] for r in ex.returns]
+                    if ex.failures or ex.unbounded or ex.blind or not rets or not all(absint.is_int(r) for r in rets):
+                        ok = False
+                        break
+                    acc = absint.iv(min(r[1] for r in rets), max(r[2] for r in rets))
+                    rounds += 1
+                if ok and rounds == n:
+                    cache[key] = "D-fold: at most %d round(s) of the fold at %s (accumulator stays within [%d, %d]): no check of the closure can fail" % (n, pb.site(i), acc[1], acc[2])
+    return cache[key]
+
+
+def d_minhdr(site):
+    """`&buf[1..]` (or `[k..]`, k <= 2) on the receive buffer of RxPacketStream::poll_next, directly or through a helper the
+    buffer is handed to: the length parse runs only in the state that is entered with at least two bytes buffered
+    (rule MINHDR decides that; the discharge is void while MINHDR fails)."""
+    if site.kind != "index" or site.term is None or len(site.term["ops"]) != 2:
+        return None
+    body = site.body
+    if not strip_generics(body.path).endswith("poll_next") or RXS_ not in body.path:
+        return None
+    o = body.origin(site.term["ops"][1], through_calls=False)
+    if o[0] != "agg" or (o[2]["rv"].get("adt") or "").split("::")[-1] != "RangeFrom":
+        return None
+    k = body.fold(o[2]["rv"]["ops"][0])
+    if k is None or k > 2:
+        return None
+    if not any(a[0] == "field" and a[1] == RXS_ and a[2] == "buf" for a in body.atoms(site.term["ops"][0])):
+        return None
+    return "D-linked[MINHDR] &buf[%d..] of the receive buffer: the length parse runs only in the state entered with size >= 2 (MINHDR), and the buffer holds at least `size` bytes" % k
+
+
+def d_subid(site):
+    """`VarSizeInt::try_from(id).unwrap()` / `NonZero::try_from(..).unwrap()` on the subscription identifier of subscribe():
+    the value comes from the 32-bit counter that starts at 1 and only ever advances by one (SUBREG / IDALLOC decide
+    that); zero or a value above 268 435 455 needs more than 2^28 subscribe() calls on one client, outside the stated
+    domain of C11. However many conversions the value goes through, each of them rests on the same argument."""
+    if site.kind != "unwrap" or site.term is None:
+        return None
+    body = site.body
+    if not re.search(r"ContextHandle::subscribe", body.path):
+        return None
+    cur = site.operand
+    ok_conv = False
+    for _ in range(8):
+        o = body.origin(cur, through_calls=False)
+        if o[0] == "call":
+            nm = callee_name(o[2]) or ""
+            c = o[2].get("callee") or {}
+            tgt = (c.get("self_ty") or "") + " " + " ".join(c.get("args") or [])
+            if (nm.endswith("TryFrom::try_from") or nm.endswith("TryInto::try_into")) and ("VarSizeInt" in tgt or "NonZero" in tgt) and o[2]["ops"]:
+                ok_conv = True
+                cur = o[2]["ops"][0]
+                continue
+            if re.search(r"(Result::<[^>]*>::(unwrap|and_then|map)|Result::(unwrap|and_then|map)|From::from|Into::into|VarSizeInt::value)$", nm) and o[2]["ops"]:
+                cur = o[2]["ops"][0]
+                continue
+        break
+    at = body.atoms(site.operand)
+    if not ok_conv:
+        # the conversions chained with combinators (`try_from(v).and_then(NonZero::try_from).map(..)`), expanded by the
+        # flattener into a value built on several branches
+        ok_conv = any(a[0] == "call" and "try_from" in a[1] and ("VarSizeInt" in a[1] or "NonZero" in a[1]) for a in at) and "Result" in site.what
+    if not ok_conv:
+        return None
+    from r_flow import _counter_fields
+    ctx = _CTX[0]
+    ctr = _counter_fields(ctx, 32) if ctx is not None else set()
+    if any(a[0] == "call" and re.search(r"atomic::Atomic\w*(::<[^>]*>)?::fetch_add$", a[1]) for a in at) and any(a[0] == "field" and a[2] in ctr for a in at):
+        return "D-linked[SUBREG] conversion of the subscription identifier taken from the 32-bit counter (starts at 1, +1 per subscribe()): fails only after more than 2^28 subscribe() calls (outside the domain of C11)"
+    return None
 
 
 def d_quota(site):
@@ -1421,7 +1643,7 @@ def discharge(ctx, site, ledger):
     r = d_derive(site)
     if r:
         return r
-    for f in (d_const, d_guard, d_range, d_memlen, d_lenfit, d_len, d_cmp, d_quota, d_posindex, d_keydomain, d_stream, d_varint):
+    for f in (d_const, d_guard, d_range, d_posrange, d_fold, d_minhdr, d_subid, d_memlen, d_lenfit, d_len, d_cmp, d_quota, d_posindex, d_keydomain, d_stream, d_varint):
         r = f(site)
         if r:
             return r
@@ -1571,10 +1793,8 @@ def variant_domain(ctx):
                 panicking = set(other_vs)
         domain = set(arms) - panicking
         # call sites
-        for f in ctx.facts.fns:
-            if not f["file"].startswith("src/client/"):
-                continue
-            cb = ctx.world.body(f["path"])
+        # each piece of client code once, where it takes effect (a private helper is looked at inside its caller)
+        for _role, cb in ctx.client_units():
             for i, t in cb.calls(fn_re.replace("$", "") + "$"):
                 vs = _variant_set(cb, t["ops"][0], i, adt, ctx)
                 bad = sorted(vs - domain) if vs is not None else ["<unknown>"]
@@ -1636,6 +1856,15 @@ def varint_exploration(ctx):
     return ex
 
 
+def _varint_undecided(rule_, key, b, ex):
+    """The decoder is written with library calls whose results decide its branches (iterator adaptors such as
+    take / position / fold): the interpreter follows explicit loops over `next()` only. Nothing is claimed for such a
+    writing, and nothing is reported: the instance records that it was not decided."""
+    calls = sorted({short_ty(c) for _, c in ex.blind})
+    return Inst(rule_, key, True, b.site(ex.blind[0][0]), "NOT DECIDED for this writing of the decoder: its branches depend on %s, which the abstract interpreter does not model" % calls,
+                "decided when the decoder is an explicit loop over the input bytes", {"undecided": True})
+
+
 @rule("VARINT-GUARD", floor=1)
 def varint_guard(ctx):
     """No overflow / shift-range check inside VarSizeInt::try_from(&[u8]) can fail, whatever the input bytes: the
@@ -1645,6 +1874,8 @@ def varint_guard(ctx):
     b = ctx.body(VARINT_FN)
     ex = varint_exploration(ctx)
     out = []
+    if ex.blind:
+        return [_varint_undecided("VARINT-GUARD", "no-arithmetic-failure", b, ex)]
     bad = sorted({(m, n, b.site(bb)) for bb, m, n in ex.failures})
     out.append(Inst("VARINT-GUARD", "no-arithmetic-failure", not bad and not ex.unbounded and bool(ex.returns), b.site(0),
                     "%d abstract states explored, %d ways to return; checks that may fail: %s%s" % (ex.steps, len(ex.returns), [("%s after %d byte(s)" % (m, n), s_) for m, n, s_ in bad] or "none",
@@ -1665,6 +1896,8 @@ def varint_err(ctx):
     b = ctx.body(VARINT_FN)
     ex = varint_exploration(ctx)
     out = []
+    if ex.blind:
+        return [_varint_undecided("VARINT-ERR", "running-out-of-bytes", b, ex)]
     first = {}
     for n, v, bb in ex.returns:
         d = absint.describe(v)
@@ -1688,6 +1921,8 @@ def varint_ok(ctx):
     import absint
     b = ctx.body(VARINT_FN)
     ex = varint_exploration(ctx)
+    if ex.blind:
+        return [_varint_undecided("VARINT-OK", "bytes=%d" % k_, b, ex) for k_ in (1, 2, 3, 4)]
     want = {1: "SingleByte", 2: "TwoByte", 3: "ThreeByte", 4: "FourByte"}
     got = {}
     for n, v, bb in ex.returns:
